@@ -17,6 +17,7 @@ import Mrm.Spec.Classify
 import Mrm.DriverElements
 import Mrm.Model.Serialize
 import Mrm.DriverIo
+import Mrm.Model.Lexer
 
 open Lean
 
@@ -162,7 +163,8 @@ def handle (j : Json) : Except String Json := do
   | "serialize" =>
     let d ← (j.getObjVal? "doc").bind xmlOfJson
     pure (Json.mkObj [("text", .str (serialize d)),
-      ("root_tags", toJson (rootTags d)), ("tokens_roundtrip", .bool (parseTokens (tokens d) == some d))])
+      ("root_tags", toJson (rootTags d)), ("tokens_roundtrip", .bool (parseTokens (tokens d) == some d)),
+      ("wf", .bool (wfSer d)), ("reparse_ok", .bool (parseXml (serialize d) == some d))])
   | "listkeys" => handleListKeys j
   | "cli" =>
     -- files: [[path, entry]] with entry = tree | "notxml" | "missing" | "directory"
@@ -193,6 +195,12 @@ def handle (j : Json) : Except String Json := do
       pure (Json.mkObj [("status", toJson r.status), ("stdout", match r.stdout with | some s => .str s | none => .null),
         ("written", match r.written with | some s => .str s | none => .null)])
     | _ => throw "cli cmd"
+  | "parse" =>
+    -- the model's reading of serialised XML (lexer + tree builder)
+    let text ← (j.getObjVal? "text").bind (·.getStr?)
+    match parseXml text with
+    | some t => pure (Json.mkObj [("doc", xmlToJson t), ("wf", .bool (wfSer t))])
+    | none => pure (Json.mkObj [("doc", .null)])
   | "spaces" =>
     -- every scalar value the model treats as whitespace (the table behind `pyStrip`)
     let cps := (List.range 0x110000).filter (fun n => (n < 0xD800 || n > 0xDFFF) && pyIsSpace (Char.ofNat n))
